@@ -3,6 +3,7 @@ import SignaloModel.Model.SinkModels
 import SignaloModel.Model.FloatVal
 import SignaloModel.Model.IntVal
 import SignaloModel.Model.Registry
+import SignaloModel.Model.PipeRegistry
 import SignaloModel.Proofs.SourcesTree
 /-! Driver: instance records of sources, sinks and pipes. Models whose state type lives in `Type 1`
 (arbitrary machines) are not stored: the descriptor and the operation log are, and the model is re-run
